@@ -183,11 +183,13 @@ REVERTS = [
     ("C10", "fix: spinCustom deformed"), ("C10", "fix: SP force/Jacobian queries"), ("C10", "fix: the two SP forward-kinematics"),
     ("C10", "fix: SP.FK kept"), ("C16", "fix: progressBar divided"),
     ("C14", "fix: tm.gPos() returned"), ("C14", "fix: all default-constructed Screws"),
-    ("C11", "fix: SP body-frame statics"), ("C06", "fix: numericalJacobian differentiates"), ("C14", "fix: adjustRotationToMidpoint(mode=1)"), ("C14", "fix: transformWrenchFrame converted"), ("C05", "fix: jacobianEETrans zeroed"), ("C03", "fix: MatrixLog3 amplified"), ("C10", "fix: spinCustom left the joint-deflection"), ("C07", "fix: IKinSpaceConstrained accepted a start"), ("C01", "fix: MatrixLog3 half-turn formulas lost"), ("C08", "fix: inverseDynamicsEMR / forwardDynamics raised"), ("C09", "fix: Newton FK of the Stewart platform used Euler-angle"),
+    ("C11", "fix: SP body-frame statics"), ("C06", "fix: numericalJacobian differentiates"), ("C14", "fix: adjustRotationToMidpoint(mode=1)"), ("C14", "fix: transformWrenchFrame converted"), ("C05", "fix: jacobianEETrans zeroed"), ("C03", "fix: MatrixLog3 amplified"), ("C10", "fix: spinCustom left the joint-deflection"), ("C07", "fix: IKinSpaceConstrained accepted a start"), ("C01", "fix: MatrixLog3 half-turn formulas lost"), ("C08", "fix: inverseDynamicsEMR / forwardDynamics raised"),
 ]
 # not in the list: "fix: Arm frame bookkeeping" - the 3e-7 rad it repaired came from the logarithm's half-turn conditioning, which the later
 # MatrixLog3 repairs removed at the root: reverse-applying it no longer changes any pose (an equivalent mutant);
-# "fix: free IK reported success for a vector" - one event per 6e5 solves, out of the quick tier's reach.
+# "fix: free IK reported success for a vector" - one event per 6e5 solves, out of the quick tier's reach;
+# "fix: Newton FK of the Stewart platform used Euler-angle" - the old kernel cycles on ~2e-4 of the poses in one corner of the geometry
+# domain (radius ratio 0.3, spacings > 30 deg) and on none elsewhere (0 of 3e4 scanned): found and re-found by the thorough tier only.
 for prop, subj in REVERTS:
     MUTANTS.append(dict(id="revert:" + subj[5:40].strip().replace(" ", "_"), revert=subj, props=[prop], desc="re-introduces the defect repaired by '%s...'" % subj))
 
